@@ -185,6 +185,10 @@ def judge(case, pre, r, faults, out, step, second_party=None, retry=True):
         return None
 
     # an exception escaped
+    if published and pre.body_raises:
+        return out.fail('dest-changed', step,
+                        'the body raised (%r) but the part file was published all the same: destination now %s, was %s'
+                        % (r.exc, _fmt(dest_now), _fmt(want_dest)), **sig)
     if published:
         # B7: failure after publication: the new content must be in place and complete
         if dest_now != pre.new:
